@@ -85,9 +85,18 @@ def idx_text(idx):
     return ",".join(f"{p}:{f}" for p, f in idx) if idx else "-"
 
 
+PID_POOL = [0, 1, 5, 6, 2**31 - 1, 2**31, 2**40 + 3, 2**63 - 1]
+EXH_PIDS = [0, 2**63 - 1, 1]
+
+
 def gen_log(rng, n_events=None, pids=None, compaction=None, dense=True):
     """original log (append order) + compaction; returns (batches, stats)"""
-    pids = pids or rng.sample([5, 6, 7, 8, 1000001, 2**40 + 3], rng.randrange(1, 5))
+    if not pids:
+        # producer ids incl. the boundary values: 0 (the first id a fresh cluster hands out), 1,
+        # 2^31-1 / 2^31 (int32 edge), 2^63-1 (largest int64); -1 is "no producer id" and never transactional
+        pids = rng.sample(PID_POOL, rng.randrange(1, 5))
+        if 0 not in pids and rng.random() < 0.5:
+            pids[rng.randrange(len(pids))] = 0
     n_events = n_events or rng.randrange(2, 22)
     compaction = rng.random() < 0.5 if compaction is None else compaction
     log, off = [], 0
@@ -99,7 +108,7 @@ def gen_log(rng, n_events=None, pids=None, compaction=None, dense=True):
             n = rng.randrange(1, 4)
             # non-idempotent, idempotent, or a non-transactional batch carrying the id of a
             # transactional producer (must be delivered even while that id is in the aborted set)
-            pid = rng.choice([-1, -1, 99, rng.choice(pids)])
+            pid = rng.choice([-1, -1, 99, 0, rng.choice(pids)])
             log.append(AB(off, off + n - 1, pid, False, "d", range(off, off + n)))
             off += n
         elif c < 0.62:
@@ -870,6 +879,12 @@ def evaluate(exe, cases, sessions, generated):
                 bump("emptied-marker-in-response")
             if any(b.kind == "a" for b in ret_b):
                 bump("abort-marker-in-response")
+            if any(b.pid == 0 and b.txn for b in ret_b):
+                bump("producer-id-0-transactional-in-response")
+                if c["lvl"] == "rc" and any(p_ == 0 for p_, _ in (c["idx"] or [])):
+                    bump("producer-id-0-aborted-in-index")
+            if any(b.pid >= 2**31 - 1 and b.txn for b in ret_b):
+                bump("producer-id-ge-2^31-1-in-response")
             if any(not b.present for b in log):
                 bump("log-with-removed-batches")
             if c["e"] < env_hw(log):
@@ -1135,6 +1150,14 @@ CORPUS = [
     {"kind": "fetch", "lvl": "rc", "f": 0, "e": 8, "idx": [[5, 0]],
      "log": "0:2:5:T:d:F:0.1.2;3:4:5:T:d:T:4;5:5:5:T:a:T:5;6:7:5:T:d:T:6.7;8:8:5:T:c:T:8", "script": ["all"],
      "variant": "cy", "gz": []},
+    # producer id 0 (the first id a fresh cluster hands out) is a producer id like any other: its aborted
+    # transaction is filtered, its non-transactional batch is delivered (independent mutant of round 3)
+    {"kind": "fetch", "lvl": "rc", "f": 0, "e": 6, "idx": [[0, 0]],
+     "log": "0:1:0:T:d:T:0.1;2:2:0:T:a:T:2;3:3:0:F:d:T:3;4:4:0:T:d:T:4;5:5:0:T:c:T:5", "script": ["all"],
+     "variant": "cy", "gz": []},
+    {"kind": "fetch", "lvl": "rc", "f": 0, "e": 4, "idx": [[9223372036854775807, 1]],
+     "log": "0:0:-1:F:d:T:0;1:2:9223372036854775807:T:d:T:1.2;3:3:9223372036854775807:T:a:T:3", "script": ["all"],
+     "variant": "py", "gz": [], "wire": 7, "tail": 0},
     # Fetch v4 is the first version that carries last_stable_offset / aborted_transactions: the response
     # must reach PartitionRecords with its index (independent mutant of round 2, missed before the wire jobs)
     {"kind": "fetch", "lvl": "rc", "f": 0, "e": 4, "idx": [[5, 0]], "log": "0:1:5:T:d:T:0.1;2:2:5:T:a:T:2;3:3:-1:F:d:T:3",
@@ -1267,7 +1290,8 @@ def run(ctx):
         "exception) compared with the Lean model and with the Lean ground truth; sessions chain fetches from the "
         "position the real code reports (start offsets inside batches / transactions / gaps arise from dropped "
         "buffers and random starts) and are compared as a whole with an independent reference reader; logs: 1-4 "
-        "transactional producers, 2-21 append events, committed/aborted/open transactions, plain + idempotent "
+        "transactional producers (ids drawn from {0, 1, 5, 6, 2^31-1, 2^31, 2^40+3, 2^63-1}, id 0 forced into half of "
+        "the logs and used by every exhaustive log), 2-21 append events, committed/aborted/open transactions, plain + idempotent "
         "batches (also under a transactional producer id), solitary markers, offset gaps, compaction (records "
         "removed, batches removed, emptied batches, markers removed or emptied once their data is gone), gzip "
         "batches; index in random order with optional extra entries; plus every (fetch offset, cut, level) of small "
@@ -1294,7 +1318,7 @@ def run(ctx):
 
 def raw_case(rng, variant):
     """arbitrary batch sequence + arbitrary index"""
-    pids = [5, 6, 7]
+    pids = [0, 5, 2**63 - 1]
     log, off = [], rng.randrange(0, 5)
     for _ in range(rng.randrange(1, 9)):
         n = rng.randrange(1, 4)
@@ -1348,7 +1372,7 @@ def exhaustive_logs(n_prod):
         for order in interleave([list(sc[ci]) for ci in combo]):
             log, off = [AB(0, 0, -1, False, "d", [0])], 1
             for (i, ev) in order:
-                log.append(AB(off, off, 5 + i, True, ev, [off]))
+                log.append(AB(off, off, EXH_PIDS[i], True, ev, [off]))
                 off += 1
             logs.append(log)
     return logs
